@@ -572,5 +572,29 @@ def plan_c11(tier, seed):
 
 FLOORS["C11"] = {"stress_events": 50_000, "snapshots_held_across_replacements": 1000, "distinct_nontrivial": 15}
 
+# ----------------------------------------------------------------------------------------------
+# Dimensions added to the workloads in round 6 of the mutation campaign (DESIGN.md §13); appended
+# to the coverage rule text of the property whose monitor carries them.
+_ROUND6 = {
+    "C03": "big file-backed region: a write whose interior pages equal the current contents while only its first / last bytes differ.",
+    "C04": "almost-zero transfers: lengths 4095..8199, 8 local x 8 guest misalignments: a buffer that is zero except one byte (each of its first 9 and last 17 positions) written over zero memory, and an all-zero buffer written over memory that is zero except one byte.",
+    "C05": "regions whose bitmap object was enlarged or cloned before being handed to the region.",
+    "C06": "store-buffering ordering litmus on real threads (1.5 x 10^6 rounds): two threads each store through the sequentially consistent guest store and then load the other's location; both loads returning the old value is a violation.",
+    "C07": "guest memories with 17 regions (lowest above address 0) and 65 sparse regions up to the top of the address space.",
+    "C08": "programs in which a mark completes a word (63 of 64 bits dirty at the start) against harvesters and resets.",
+    "C09": "page-count thresholds 2^12, 2^16, 2^18, 2^18 + 64, 2^20: bitmaps created just below / at / above each and small marked bitmaps ENLARGED across it, followed by a full read-out.",
+    "C10": "regions flagged as hugetlbfs-backed: removal with the size rounded up to 4 KiB / 2 MiB / 1 GiB must be refused like any other inexact size.",
+    "C11": "a replacement whose new map describes the same guest ranges over the SAME host memory through fresh region objects (build_raw windows, fresh bitmaps): snapshots through every handle must show the new region objects.",
+    "C12": "externally provided mappings in four states (read-write, PROT_NONE, read-only, shared file) x 11 descriptive flag words (locked, populate, huge pages, fixed, grows-down, none, all bits) x 4 descriptive protections x build_raw / builder routes: whatever the constructor answers, no munmap / MAP_FIXED mmap may touch the mapping, msync still finds it mapped and its /proc/self/maps permissions are unchanged.",
+    "C13": "Vec<u8> sinks in capacity states (capacity 16 B .. 2 MiB around 1 MiB; spare room 0, < n, = n, > n).",
+    "C14": "a real signal (handler without SA_RESTART, pthread_kill at the transferring thread) delivered while the thread is blocked between two fragments of an exact transfer on UnixStream, TcpStream, an OwnedFd of a socket and a pipe (reading), and while write_all blocks on a socket with a 4 KiB send buffer (writing); the handler-ran count is reported.",
+    "C15": "a backing file that is descriptor 0 of the process.",
+    "C18": "empty local buffers whose pointer lies at the start of, inside and at the end of the guest bytes they are 'copied' with.",
+    "C19": "operands 2^k - d, 2^k, 2^k + d for every k in 0..64 and small d.",
+    "C20": "clone_from over a partner holding a different value.",
+}
+for _pid, _txt in _ROUND6.items():
+    META[_pid]["rule"] = META[_pid]["rule"].rstrip() + " Round-6 additions: " + _txt
+
 # properties that are (currently) not claimed, with the reason recorded in MANIFEST.json
 NOT_CLAIMED = {}
